@@ -15,6 +15,13 @@ SIG = [
     '\\begin', '\\begin{',
 ]
 
+# legacy verbatim-type constructs of the default context (handled by the pylatexenc-2 style
+# arguments parsers) and unusual spellings of \begin / \end; whitespace that Python's isspace()
+# accepts but LaTeX does not treat as a blank
+LEGACY = ['\\begin{lstlisting}', '\\end{lstlisting}', '\\begin{verbatim}', '\\end{verbatim}',
+          '\\verb', '\\begin {x}', '\\end\n{x}', '\\begin{x}', '\\end{x}', '[', ']', '{', '}', '|',
+          'a', ' ', '\n', '%', '\\', '\r', '\x0c', '\xa0', '\u2028', '\\section']
+
 # Reduced alphabet for deeper exhaustive sweeps (one representative per token class).
 SIG_SMALL = [
     'a', ' ', '\n', '{', '}', '[', ']', '$', '%', '~', '\\',
@@ -29,7 +36,7 @@ STRUCTURAL = set(SIG) - {'a', 'b', '1', ' ', '\n', ',', '=', '|', '*'}
 EVERYTYPE_TOKENS = [
     '\\mstar', '\\mopt', '\\mmand', '\\mm', '\\mo', '\\ms', '\\mt', '\\mr', '\\md', '\\mv', '\\mvb',
     '\\mcombo', '\\mmath', '\\mtext', '\\begin{eenv}', '\\end{eenv}', '+', '<', '>',
-    '\\me', '^', '_', '\\many', '\\manyo', '(', ')',
+    '\\me', '^', '_', '\\many', '\\manyo', '(', ')', '!',
 ]
 
 MATH9 = ['$', 'a', '{', '}', ' ', '\\(', '\\)', '\\[', '\\]']
